@@ -98,6 +98,19 @@ func genHdrTok(r *rand.Rand, maxEntries int) string {
 		}
 		seen[norm] = true
 		var v string
+		hdrSeq++
+		if hdrSeq%5 == 3 { // nested maps whose own keys are no header labels (wide integers, booleans, mixed), also inside arrays — in turn
+			v = []string{
+				"{ i64:1700000000123 t:63726561746564 }",
+				"[ { int:1 t:706c61696e } { T t:6f6e F t:6f6666 } ]",
+				"{ i64:-4294967297 int:1 u64:18446744073709551615 int:2 }",
+				"{ t:61 { T { i64:4294967296 b:01 } } }",
+				"[ int:1 [ { F nil } ] ]",
+				"{ int:-1 { u64:4294967296 [ T F ] } int:1 int:2 }",
+			}[(hdrSeq/5)%6]
+			parts = append(parts, l, v)
+			continue
+		}
 		switch r.Intn(8) {
 		case 7: // a value nested 1..14 levels deep (with the message's own levels still far from the decoder's limit of 32)
 			d := 1 + r.Intn(14)
@@ -159,15 +172,26 @@ func payloadTok(r *rand.Rand, mode string, big bool) string {
 		return "-"
 	default:
 		// every CBOR length class, and the sizes at which chunked / buffered primitives change gear (512, 4096)
-		n := []int{1, 5, 23, 24, 25, 100, 255, 256, 257, 511, 512, 513, 1000, 4095, 4096, 4097}[r.Intn(16)]
-		if big && r.Intn(3) == 0 {
-			n = []int{65535, 65536, 70000, 32767, 32768, 40000}[r.Intn(6)]
+		// (taken in turn, not drawn: every class is reached whatever the seed)
+		classes := []int{1, 5, 23, 24, 25, 100, 255, 256, 257, 511, 512, 513, 1000, 4095, 4096, 4097}
+		n := classes[payloadSeq%len(classes)]
+		payloadSeq++
+		if big {
+			bigClasses := []int{65535, 65536, 70000, 32767, 32768, 40000, 65534, 65537}
+			n = bigClasses[bigSeq%len(bigClasses)]
+			bigSeq++
 		}
 		return hx(randBytes(r, n))
 	}
 }
 
+var payloadSeq, bigSeq, extSeq, hdrSeq, signSeq, recipSeq int
+
 func extTok(r *rand.Rand) string {
+	extSeq++
+	if extSeq%16 == 9 { // external data at the boundaries of the CBOR length classes, in turn
+		return hx(randBytes(r, []int{23, 24, 255, 256, 65535, 65536}[(extSeq/16)%6]))
+	}
 	switch r.Intn(4) {
 	case 0:
 		return "~"
@@ -191,6 +215,16 @@ func buildProduce(r *rand.Rand, kind, mode string, payload, prot, unprot, ext st
 	recips := "r0"
 	if kind == "mac" || kind == "encrypt" {
 		recips = []string{"r1", "r2", "r1s", "r3s", "r1n", "r2n"}[r.Intn(6)]
+		recipSeq++
+		if recipSeq%3 == 1 && len(keys) > 0 && len(keys[0].kid) > 0 { // a recipient addressed by the content key's own kid
+			recips = []string{"r1", "r2", "r3s"}[(recipSeq/3)%3] + "k:" + hx(keys[0].kid)
+		}
+	}
+	if kind == "sign" {
+		signSeq++
+		if signSeq%4 == 2 { // signers that report a key without algorithm (an application's own key.Signer): their protected bucket is empty
+			recips = "noalg"
+		}
 	}
 	var ks []string
 	for _, k := range keys {
@@ -335,6 +369,9 @@ func genMsg(r *rand.Rand, n int, flavour string) []string {
 			}
 			if d, ok := reheadProtected(p.data); ok {
 				out = append(out, p.consumeLine(d, p.ext, p.pubKeys()))
+			}
+			if k2, d, ok := reframe(p.kind, p.data); ok {
+				out = append(out, fmt.Sprintf("msg.consume %s %s %s %s | %s", k2, p.mode, p.ext, hx(d), strings.Join(p.pubKeys(), " | ")))
 			}
 			if d, ok := reheadPayload(p.data); ok && p.mode != "raw" && p.mode != "rawmsg" {
 				out = append(out, p.consumeLine(d, p.ext, p.pubKeys()))
@@ -679,6 +716,28 @@ func reheadPayload(data []byte) ([]byte, bool) {
 	}
 	np := append([]byte{mt<<5 | 24, ai}, pc[1:]...)
 	return replaceSpan(data, spans[2], bstrItem(np)), true
+}
+
+// reframe: the members of a message re-framed as its sibling kind, with the same protected / unprotected / payload /
+// authenticator — the recipient list dropped (COSE_Mac -> COSE_Mac0, COSE_Encrypt -> COSE_Encrypt0) or a one-recipient
+// list added (the other way round).  Only the context string of the authenticated structure tells the siblings apart.
+func reframe(kind string, data []byte) (string, []byte, bool) {
+	_, spans := topMembers(data)
+	sib := map[string]string{"mac": "mac0", "mac0": "mac", "encrypt": "encrypt0", "encrypt0": "encrypt"}[kind]
+	want := map[string]int{"mac": 5, "mac0": 4, "encrypt": 4, "encrypt0": 3}[kind]
+	if sib == "" || len(spans) != want {
+		return kind, data, false
+	}
+	var members [][]byte
+	for _, sp := range spans {
+		members = append(members, data[sp[0]:sp[1]])
+	}
+	if kind == "mac" || kind == "encrypt" {
+		members = members[:len(members)-1]
+	} else {
+		members = append(members, []byte{0x81, 0x83, 0x40, 0xa0, 0x40})
+	}
+	return sib, append(append([]byte{}, kindPrefix[sib]...), arrayItem(members)...), true
 }
 
 // extendLaterSignerBucket: the last signature entry of a COSE_Sign keeps its signature and unprotected bucket while its
